@@ -21,11 +21,12 @@ RULE = ('case = (dialogue of <= 4 steps + exit, event table, mode, withexitstatu
         'non-trivial = an event pattern occurs, or the peer waits for input / pauses beyond the timeout')
 ASSUMPTIONS = ['event patterns are atomic tokens (P1, P2, P[0-9]) so that chunking cannot legitimately change which occurrence matches',
                'for tables with a TIMEOUT key only the output and the pattern responses are judged (the number of TIMEOUT events depends on timing)']
-REQUIRED_FLAGS = {'event_answered': 1, 'timeout_event': 1, 'callback_stop': 1, 'split_occurrence': 1, 'list_priority': 1, 'exit_code': 1}
+REQUIRED_FLAGS = {'event_answered': 1, 'timeout_event': 1, 'callback_stop': 1, 'split_occurrence': 1, 'list_priority': 1, 'exit_code': 1,
+                  'search_window_kwarg': 1, 'detached_then_exits_later': 1, 'run_after_truncated_run': 1}
 
 T = 0.3
-STEPS = ['E0', 'E1', 'E2', 'ES', 'EZ', 'W', 'Z']
-TEXT = {'E0': b'plain ', 'E1': b'ask P1 ', 'E2': b'P1 then P2 '}
+STEPS = ['E0', 'E1', 'E2', 'ES', 'EZ', 'W', 'Z', 'H']
+TEXT = {'E0': b'plain ', 'E1': b'ask P1 ', 'E2': b'P1 then P2 ', 'EU': b'caf\xc3'}
 
 
 class Peer(object):
@@ -49,11 +50,14 @@ class Peer(object):
         self.resume_at = None
         self.consumed = 0
         self.busy = False
+        self.hung = False
 
     def input(self):
         return bytes(self.env.sent.get(self.sp.hs_master, b''))
 
     def emit(self, data):
+        if self.hung:
+            return                                # the child gave up its terminal: nothing it writes goes anywhere
         late = self.sp.ptyproc.fileobj.closed     # run() has already stopped and is closing the child
         if not late:
             self.emitted.append((self.env.now(), data))
@@ -73,7 +77,16 @@ class Peer(object):
                     self.emit(b'xP')
                 elif st == 'ESb':
                     self.emit(b'1y ')
+                elif st == 'H':
+                    # the child closes its terminal (detaches) but goes on running until the exit step
+                    if not self.hung:
+                        self.hung = True
+                        self.hung_during = env.blocking_in    # what the library was blocked in when the terminal went away
+                        env.peer_close(self.sp.hs_slave)
                 elif st == 'W':
+                    if self.hung:
+                        self.i += 1
+                        continue
                     data = self.input()
                     nl = data.find(b'\n', self.consumed)
                     if nl < 0:
@@ -128,6 +141,10 @@ def tables(mode, rec):
         cnt['n'] += 1
         return cnt['n'] >= 2
 
+    def cb_tstop(d):
+        rec.note(d, 'cb_timeout')
+        return True
+
     def cb_eof(d):
         rec.note(d, 'cb_eof')
         return True
@@ -143,12 +160,13 @@ def tables(mode, rec):
         'list-cb-true': [(S('P1'), cb_true)],
         # the later-listed pattern starts earlier in the stream and ends later: stream order decides
         'list-overlap-later-starts-earlier': [(S('P1'), S('spec\n')), (S('ask P1 '), S('long\n'))],
+        'timeout-stop': [(TIMEOUT, cb_tstop)],
     }
 
 
 TABLES = ['none', 'dict-str', 'list-str-fn', 'list-overlap-general-first', 'list-overlap-specific-first',
           'dict-cb-none-method-stop', 'list-timeout-event', 'dict-eof-event', 'list-cb-true',
-          'list-overlap-later-starts-earlier']
+          'list-overlap-later-starts-earlier', 'timeout-stop']
 
 
 def bounds(tier):
@@ -163,7 +181,7 @@ def tasks(tier):
     return out
 
 
-def run_case(task, steps, code, withexit):
+def run_case(task, steps, code, withexit, sw=None):
     E.install()
     prun = sys.modules['pexpect.run']
     env = E.Env(Chooser(()))
@@ -185,7 +203,8 @@ def run_case(task, steps, code, withexit):
         exc = None
         try:
             try:
-                out = prun.run('/bin/true', timeout=T, withexitstatus=withexit, events=events, encoding=enc)
+                kw = {} if sw is None else {'searchwindowsize': sw}
+                out = prun.run('/bin/true', timeout=T, withexitstatus=withexit, events=events, encoding=enc, **kw)
             except E.Hang:
                 raise
             except Cut:
@@ -198,7 +217,7 @@ def run_case(task, steps, code, withexit):
         peer = box['peer']
         sp = box['sp']
         emitted = b''.join(d for _, d in peer.emitted)
-        text = emitted if enc is None else emitted.decode(enc)
+        text = emitted if enc is None else emitted.decode(enc, 'ignore' if 'EU' in steps else 'strict')
         if exc is not None:
             viol = ('exception', 'run() raised %r' % (exc,))
         else:
@@ -262,6 +281,13 @@ def run_case(task, steps, code, withexit):
                     want = L.decode(sp.hs_proc.status)
                     if want is None or status != want[0]:
                         viol = ('exitstatus', 'run() reported exit status %r, real fate %r' % (status, want))
+                    elif sp.flag_eof and not stopped and status != code:
+                        # the run stopped because the child's output ended; the child was about to exit with
+                        # `code` by itself (every dialogue ends with exit): that is the code to report, the
+                        # child must not be cut short by run() itself
+                        during = getattr(peer, 'hung_during', None)
+                        viol = ('exitstatus:cut-short' + (':hangup-during-timed-%s' % during if during else ''), 'output ended, the child was exiting with code %r by itself; run() reported %r '
+                                '(the child\'s fate: %r)' % (code, status, want))
                 obs['stopped'] = stopped
                 obs['ended_eof'] = ended_eof
     except E.Hang as h:
@@ -279,10 +305,21 @@ def run_task(task):
     acc = Acc()
     q = task['tier'] == 'quick'
     maxlen = 3 if q else 4
+    variants = [(0, False, None), (7, True, None)]
+    if task['table'] in ('none', 'timeout-stop'):
+        # a search window given through run()'s keyword arguments (only where no text pattern is listed: what a
+        # window may legitimately hide from a pattern is C03's subject)
+        variants += [(0, False, 4), (7, True, 4)]
     for n in range(0, maxlen + 1):
         for steps in itertools.product(STEPS, repeat=n):
-            for code, withexit in ((0, False), (7, True)):
-                obs, viol = run_case(task, steps, code, withexit)
+            for code, withexit, sw in variants:
+                if 'H' in steps and steps.index('H') != len(steps) - 1 and not (steps[-1] == 'Z' and steps.index('H') == len(steps) - 2):
+                    continue       # after detaching the child only waits and exits
+                obs, viol = run_case(task, steps, code, withexit, sw)
+                if sw is not None:
+                    acc.flags['search_window_kwarg'] += 1
+                if 'H' in steps and steps[-1] == 'Z' and withexit:
+                    acc.flags['detached_then_exits_later'] += 1
                 acc.execs += 1
                 acc.transitions += n + 1
                 nt = any(s in ('E1', 'E2', 'ES', 'EZ', 'W', 'Z') for s in steps)
@@ -305,7 +342,22 @@ def run_task(task):
                 if viol:
                     acc.violation('%s:%s:%s' % (task['table'], task['mode'], viol[0]),
                                   'dialogue %r exit %d: %s' % (steps, code, viol[1]),
-                                  dict(task=task, steps=list(steps), code=code, withexit=withexit))
+                                  dict(task=task, steps=list(steps), code=code, withexit=withexit, sw=sw))
+    if task['mode'] != 'bytes':
+        # two runs one after the other in this process; the first child's output stops inside a character
+        for first in (('EU',), ('E0', 'EU'), ('EU', 'Z')):
+            for second in (('E0',), ('E1', 'W'), ('E2',)):
+                run_case(task, first, 0, False)
+                obs, viol = run_case(task, second, 7, True)
+                acc.execs += 2
+                acc.transitions += len(first) + len(second) + 2
+                acc.nontrivial += 1
+                acc.flags['run_after_truncated_run'] += 1
+                acc.outcomes['after-truncated:%s' % ('viol:' + viol[0] if viol else 'ok')] += 1
+                if viol:
+                    acc.violation('%s:%s:after-truncated-run:%s' % (task['table'], task['mode'], viol[0]),
+                                  'after a run whose output ended inside a character (%r), dialogue %r: %s' % (first, second, viol[1]),
+                                  dict(task=task, first=list(first), steps=list(second), code=7, withexit=True))
     acc.states += 1
     acc.sample(dict(task=task, steps=['E1', 'W', 'ES'], code=7, withexitstatus=True))
     return acc
@@ -315,8 +367,11 @@ def replay(spec):
     from mc.explore import unjson
     spec = unjson(spec)
     task = spec['task']
-    obs, viol = run_case(task, tuple(spec['steps']), spec['code'], spec['withexit'])
+    if spec.get('first'):
+        run_case(task, tuple(spec['first']), 0, False)
+    obs, viol = run_case(task, tuple(spec['steps']), spec['code'], spec['withexit'], spec.get('sw'))
     out = {'observation': {k: repr(v) for k, v in obs.items()}, 'violation': None}
     if viol:
-        out['violation'] = {'key': '%s:%s:%s' % (task['table'], task['mode'], viol[0]), 'msg': viol[1]}
+        out['violation'] = {'key': '%s:%s:%s%s' % (task['table'], task['mode'], 'after-truncated-run:' if spec.get('first') else '', viol[0]),
+                            'msg': viol[1]}
     return out
